@@ -420,6 +420,9 @@ class Engine:
             return mk_py(ExtRef(name))
         if name.endswith(D.EXC_SUFFIX) or name in EXC_PARENTS:
             return mk_py(ExtRef(name))
+        if fr.spec:
+            raise T.StaleContract(f"a contract clause mentions the name {name!r}, which is not defined where the clause is evaluated in {fr.fn_key} "
+                                  "(sidecar out of date with the code, e.g. a renamed local)")
         raise Unsupported(f"unresolved name {name}")
 
     @staticmethod
